@@ -31,11 +31,23 @@ def main():
         meta['repo_head'] = sh('git -C /repo rev-parse --short HEAD')[1].strip()
         demos = [f for f in glob.glob(os.path.join(seeddir, '*')) if os.path.basename(f) not in ('patch.diff', 'README.md')]
         tests = [f for f in demos if f.endswith('_test.go')]
-        for f in tests:
-            shutil.copy(f, os.path.join(wt, target))
-        demo_cmd = f'go test -vet=off -count=1 -run {pattern} ./{target}/'
-        rc, out = sh(demo_cmd, cwd=wt)
-        meta['demo_cmd'] = demo_cmd + f'   (test file(s) copied into {target}/)'
+        # demo kinds: Go test (target = package dir, pattern = -run regexp) or script
+        # (target = 'php', pattern = '<script file>::<substring the output has iff the property holds>')
+        if target == 'php':
+            script, expect = pattern.split('::', 1)
+            demo_cmd = f'go build -o {wt}/.seedcli . && {wt}/.seedcli {os.path.join(seeddir, script)}'
+            def run_demo():
+                rc, out = sh(demo_cmd, cwd=wt, timeout=600)
+                return (0 if (rc == 0 and expect in out) else 1), out
+            meta['demo_cmd'] = f'go build -o cli . && cli {script}   (passes iff exit 0 and the output contains "{expect}")'
+        else:
+            for f in tests:
+                shutil.copy(f, os.path.join(wt, target))
+            demo_cmd = f'go test -vet=off -count=1 -run {pattern} ./{target}/'
+            def run_demo():
+                return sh(demo_cmd, cwd=wt)
+            meta['demo_cmd'] = demo_cmd + f'   (test file(s) copied into {target}/)'
+        rc, out = run_demo()
         meta['demo_on_pristine'] = 'pass' if rc == 0 else 'FAIL'
         print('demo on pristine:', meta['demo_on_pristine'])
         if rc != 0:
@@ -46,11 +58,17 @@ def main():
         rc, out = sh('go build ./...', cwd=wt)
         meta['builds'] = rc == 0
         print('builds:', rc == 0)
-        rc, out = sh(demo_cmd, cwd=wt)
+        try:
+            rc, out = run_demo()
+        except subprocess.TimeoutExpired:
+            rc, out = 1, 'demo timed out (hang)'
         meta['demo_with_change'] = 'fail' if rc != 0 else 'PASS'
         print('demo with change:', meta['demo_with_change'])
-        for f in tests:
-            os.remove(os.path.join(wt, target, os.path.basename(f)))
+        if target != 'php':
+            for f in tests:
+                os.remove(os.path.join(wt, target, os.path.basename(f)))
+        if os.path.exists(f'{wt}/.seedcli'):
+            os.remove(f'{wt}/.seedcli')
         rc, out = sh('go test -vet=off -count=1 ./... 2>&1 | grep -E "^(FAIL|--- FAIL|ok)"', cwd=wt)
         fails = sorted(set(re.findall(r'--- FAIL: (\S+)', out)))
         meta['repo_tests_failing_with_change'] = fails
